@@ -12,6 +12,8 @@ import (
 	"github.com/sarchlab/akita/v4/sim"
 	"github.com/sarchlab/akita/v4/sim/directconnection"
 	"github.com/sarchlab/mgpusim/v4/amd/driver"
+	"github.com/sarchlab/mgpusim/v4/amd/insts"
+	"github.com/sarchlab/mgpusim/v4/amd/kernels"
 	"github.com/sarchlab/mgpusim/v4/amd/protocol"
 	"github.com/sarchlab/mgpusim/v4/amd/timing/cp"
 
@@ -38,6 +40,10 @@ type dmaJob struct {
 	H2D   bool   `json:"h2d"`
 	Off   uint64 `json:"offset"`
 	Len   uint64 `json:"length"`
+	// Kernel: a kernel launch instead of a copy. The kernel (one work-group on
+	// the environment's compute unit) stores its pattern into [Off, Off+Len);
+	// the stores sit dirty in the environment's write-back cache until a flush.
+	Kernel bool `json:"kernel,omitempty"`
 }
 
 type dmaCfg struct {
@@ -49,8 +55,30 @@ type dmaCfg struct {
 	Cycles   int      `json:"middleware_cycles"`
 	Log2Page uint64   `json:"log2_page"` // 0 = 16
 	Dirty    bool     `json:"dirty"`     // buffers marked dirty as after a kernel launch: copies are preceded by a flush of every GPU
+	// QueueCtx: context of every queue (index; 0 = the first context, k > 0 =
+	// the k-th sibling made with InitWithExistingPID). nil = all in context 0.
+	QueueCtx []int `json:"queue_ctx,omitempty"`
 	NoStall  bool     `json:"-"`
 	NoDelays bool     `json:"-"`
+}
+
+// envCU is the compute unit the environment plays (resources of a GCN3 CU).
+type envCU struct{ name string }
+
+func (c *envCU) DispatchingPort() sim.RemotePort { return sim.RemotePort(c.name + ".Dispatch") }
+func (c *envCU) ControlPort() sim.RemotePort     { return sim.RemotePort(c.name + ".Ctrl") }
+func (c *envCU) WfPoolSizes() []int              { return []int{10, 10, 10, 10} }
+func (c *envCU) VRegCounts() []int               { return []int{16384, 16384, 16384, 16384} }
+func (c *envCU) SRegCount() int                  { return 3200 }
+func (c *envCU) LDSBytes() int                   { return 65536 }
+
+// kernBytes is what kernel job i stores.
+func kernBytes(job int, n uint64) []byte {
+	out := make([]byte, n)
+	for i := range out {
+		out[i] = byte(0xB1 + job*0x23 + i*5)
+	}
+	return out
 }
 
 type sendHook struct{ f func(m sim.Msg) }
@@ -117,6 +145,15 @@ func dmaBody(c dmaCfg) explore.Body {
 		var feeders []*world.Feeder
 		var pieces []*piece
 		evSeq, lastFlushAck, lastCopyRsp := 0, 0, 0
+		// write-back cache model: kernel stores stay here (per GPU) until a flush
+		// of that GPU is taken; DMA reads and writes go to `memory` (DRAM)
+		caches := make([]map[uint64]byte, c.NGPU)
+		for g := range caches {
+			caches[g] = map[uint64]byte{}
+		}
+		kernelOfPacket := map[*kernels.HsaKernelDispatchPacket]int{}
+		kernelDone := map[int]int{}
+		var kernelStores func(job int) // set below, needs the translation
 		flushes := make([]int, c.NGPU)
 		flushAcks := make([]int, c.NGPU)
 		txByID := map[string]*memTx{}
@@ -126,7 +163,8 @@ func dmaBody(c dmaCfg) explore.Body {
 		for g := 0; g < c.NGPU; g++ {
 			g := g
 			name := fmt.Sprintf("GPU%d", g+1)
-			p := cp.MakeBuilder().WithEngine(w.Engine).WithFreq(w.Freq).Build(name + ".CP")
+			cu := &envCU{name: name + ".CU"}
+			p := cp.MakeBuilder().WithEngine(w.Engine).WithFreq(w.Freq).WithCU(cu).WithConstantKernelOverhead(2).Build(name + ".CP") // the default post-completion overhead is 3600 cycles; 2 keeps executions short
 			mp := mem.NewInterleavedAddressPortMapper(4096)
 			mp.LowModules = []sim.RemotePort{sim.RemotePort(name + ".Mem0"), sim.RemotePort(name + ".Mem1")}
 			d := cp.NewDMAEngine(name+".DMA", w.Engine, mp)
@@ -158,9 +196,6 @@ func dmaBody(c dmaCfg) explore.Body {
 				default:
 					fail("mem/unexpected-message", "%T sent to memory", m)
 					return
-				}
-				if flushes[g] != flushAcks[g] {
-					fail("mem/transaction-while-flush-in-progress", "GPU %d: %T at %#x sent to memory while a cache flush is still unacknowledged", g+1, m, addr)
 				}
 				if n == 0 {
 					fail("mem/empty-transaction", "transaction of 0 bytes at %#x", addr)
@@ -202,6 +237,15 @@ func dmaBody(c dmaCfg) explore.Body {
 				owner.txs++
 				txByID[m.Meta().ID] = &memTx{p: owner, write: wr != nil, addr: addr, n: n}
 				fmt.Fprintf(&trace, "T%d:%x+%d;", g+1, addr-gpuBase(g), n)
+			}})
+
+			// --- a copy request is handed to the DMA engine only when no cache
+			// flush of this GPU is in progress (a copy already inside the DMA
+			// engine may overlap a flush requested later for another queue)
+			p.ToDMA.AcceptHook(sendHook{func(m sim.Msg) {
+				if flushes[g] != flushAcks[g] {
+					fail("cp/copy-started-while-flush-in-progress", "GPU %d: %T handed to the DMA engine while a cache flush is still unacknowledged", g+1, m)
+				}
 			}})
 
 			// --- completion responses of the command processor
@@ -291,9 +335,49 @@ func dmaBody(c dmaCfg) explore.Body {
 				}
 				flushes[g]++
 				fmt.Fprintf(&trace, "F%d;", g+1)
+				// the flush writes back what is dirty when it is taken
+				for a, b := range caches[g] {
+					memory[a] = b
+					refImg[a] = b
+				}
+				caches[g] = map[uint64]byte{}
 				cfd.Add(cache.FlushRspBuilder{}.WithSrc(l2.AsRemote()).WithDst(p.ToCaches.AsRemote()).WithRspTo(fr.ID).Build(), true)
 			}
 			sinks, feeders = append(sinks, csk), append(feeders, cfd)
+
+			// --- the compute unit, played by the environment: a mapped work-group
+			// completes after an explorer-chosen time; its stores are in the cache
+			// from that moment on
+			w.NewWire(name+".cuwire", p.ToCUs)
+			kfd := &world.Feeder{W: w, Port: p.ToCUs, Tag: fmt.Sprintf("kernel-done%d", g+1), Reorder: true, DelayAlphabet: []int{12, 45}}
+			if c.NoDelays {
+				kfd.DelayAlphabet, kfd.Reorder = nil, false
+			}
+			wgJob := map[string]int{}
+			kfd.OnDeliver = func(m sim.Msg) {
+				for _, id := range m.(*protocol.WGCompletionMsg).RspTo {
+					job := wgJob[id]
+					kernelStores(job)
+					kernelDone[job]++
+					fmt.Fprintf(&trace, "K%d@%d;", job, w.Cycle())
+				}
+			}
+			ksk := &world.Sink{W: w, Port: p.ToCUs, Tag: fmt.Sprintf("cu%d", g+1), NoChoice: true}
+			ksk.Handle = func(m sim.Msg) {
+				req, ok := m.(*protocol.MapWGReq)
+				if !ok {
+					fail("cp/unexpected-cu-message", "%T sent to the compute unit", m)
+					return
+				}
+				job, known := kernelOfPacket[req.WorkGroup.Packet]
+				if !known {
+					fail("cp/work-group-of-unknown-kernel", "MapWGReq for a kernel the application never launched")
+					return
+				}
+				wgJob[req.ID] = job
+				kfd.Add(protocol.WGCompletionMsgBuilder{}.WithSrc(m.Meta().Dst).WithDst(p.ToCUs.AsRemote()).WithRspTo([]string{req.ID}).Build(), true)
+			}
+			sinks, feeders = append(sinks, ksk), append(feeders, kfd)
 		}
 
 		// --- what the driver sends to the GPUs: the page-wise split
@@ -327,7 +411,7 @@ func dmaBody(c dmaCfg) explore.Body {
 			var cs *cmdState
 			ji := -1
 			for i, c := range cmds {
-				if c.job.H2D == h2d && c.next < c.job.Len && translate(ptr+c.job.Off+c.next) == paddr {
+				if !c.job.Kernel && c.job.H2D == h2d && c.next < c.job.Len && translate(ptr+c.job.Off+c.next) == paddr {
 					cs, ji = c, i
 					break
 				}
@@ -393,13 +477,45 @@ func dmaBody(c dmaCfg) explore.Body {
 				nq = j.Queue + 1
 			}
 		}
+		kernelStores = func(job int) {
+			j := c.Jobs[job]
+			for k, b := range kernBytes(job, j.Len) {
+				pa := translate(ptr + j.Off + uint64(k))
+				for g := 0; g < c.NGPU; g++ {
+					if pa >= gpuBase(g) && pa < gpuBase(g)+8*bPage {
+						caches[g][pa] = b
+					}
+				}
+			}
+		}
+		ctxs := []*driver.Context{ctx}
 		var queues []*driver.CommandQueue
 		for i := 0; i < nq; i++ {
-			queues = append(queues, drv.CreateCommandQueue(ctx))
+			ci := 0
+			if i < len(c.QueueCtx) {
+				ci = c.QueueCtx[i]
+			}
+			for len(ctxs) <= ci {
+				sib := drv.InitWithExistingPID(ctx)
+				drv.SelectGPU(sib, 1)
+				ctxs = append(ctxs, sib)
+			}
+			queues = append(queues, drv.CreateCommandQueue(ctxs[ci]))
 		}
 		outs := make([][]byte, len(c.Jobs))
 		for i, j := range c.Jobs {
 			cmds = append(cmds, &cmdState{job: j})
+			if j.Kernel {
+				co := &insts.KernelCodeObject{KernelCodeObjectMeta: &insts.KernelCodeObjectMeta{}}
+				co.WFSgprCount, co.WIVgprCount = 16, 8
+				pk := &kernels.HsaKernelDispatchPacket{WorkgroupSizeX: 64, WorkgroupSizeY: 1, WorkgroupSizeZ: 1, GridSizeX: 64, GridSizeY: 1, GridSizeZ: 1}
+				kernelOfPacket[pk] = i
+				// what EnqueueLaunchKernel enqueues last (its three preparatory H2D
+				// copies of code object, arguments and packet are left out: the
+				// environment's compute unit does not read them)
+				drv.Enqueue(queues[j.Queue], &driver.LaunchKernelCommand{ID: sim.GetIDGenerator().Generate(), CodeObject: co, Packet: pk})
+				continue
+			}
 			if j.H2D {
 				drv.EnqueueMemCopyH2D(queues[j.Queue], driver.Ptr(ptr+j.Off), hostBytes(i, j.Len))
 			} else {
@@ -443,7 +559,15 @@ func dmaBody(c dmaCfg) explore.Body {
 				return explore.Viol("dma/piece-completions", "piece [%#x,+%d) completed %d times", pc.paddr, pc.n, pc.done)
 			}
 		}
+		for i, j := range c.Jobs {
+			if j.Kernel && kernelDone[i] != 1 {
+				return explore.Viol("dma/kernel-completions", "kernel job %d completed %d times", i, kernelDone[i])
+			}
+		}
 		for i, cs := range cmds {
+			if cs.job.Kernel {
+				continue
+			}
 			if cs.next != cs.job.Len {
 				return explore.Viol("dma/driver/command-not-fully-split", "command %d: pieces cover %d of %d bytes", i, cs.next, cs.job.Len)
 			}
@@ -472,7 +596,7 @@ func dmaBody(c dmaCfg) explore.Body {
 		}
 		// D2H results: a D2H job in a queue sees every earlier H2D of the same queue
 		for i, j := range c.Jobs {
-			if j.H2D {
+			if j.H2D || j.Kernel {
 				continue
 			}
 			want := make([]byte, j.Len)
@@ -486,6 +610,11 @@ func dmaBody(c dmaCfg) explore.Body {
 				}, ptr)
 			}
 			if !bytes.Equal(outs[i], want) {
+				k := uint64(firstDiff(outs[i], want))
+				if src := d2hSource(c, i, k); src >= 0 && c.Jobs[src].Kernel {
+					return explore.Viol("dma/d2h-misses-kernel-write", "D2H job %d (queue %d, offset %d length %d) does not return what kernel job %d, its predecessor in the same queue, stored: byte %d is %#x, the kernel wrote %#x; trace %s",
+						i, j.Queue, j.Off, j.Len, src, k, at(outs[i], int(k)), at(want, int(k)), trace.String())
+				}
 				return explore.Viol("dma/d2h-data-wrong", "D2H job %d (offset %d length %d) returned a wrong byte at %d: got %#x want %#x; trace %s", i, j.Off, j.Len, firstDiff(outs[i], want), at(outs[i], firstDiff(outs[i], want)), at(want, firstDiff(outs[i], want)), trace.String())
 			}
 		}
@@ -541,11 +670,25 @@ func initialByte(pa uint64, gpuBase func(int) uint64, n int, bPage uint64) (byte
 func d2hExpect(c dmaCfg, job int, k uint64, initial func(v uint64) byte, ptr uint64) byte {
 	j := c.Jobs[job]
 	v := j.Off + k
-	for i := job - 1; i >= 0; i-- {
-		h := c.Jobs[i]
-		if h.H2D && h.Queue == j.Queue && v >= h.Off && v < h.Off+h.Len {
-			return hostBytes(i, h.Len)[v-h.Off]
+	if i := d2hSource(c, job, k); i >= 0 {
+		if c.Jobs[i].Kernel {
+			return kernBytes(i, c.Jobs[i].Len)[v-c.Jobs[i].Off]
 		}
+		return hostBytes(i, c.Jobs[i].Len)[v-c.Jobs[i].Off]
 	}
 	return initial(ptr + v)
+}
+
+// d2hSource is the job that last wrote byte k of D2H job `job` before it in
+// the same queue (H2D or kernel), or -1 for the initial memory.
+func d2hSource(c dmaCfg, job int, k uint64) int {
+	j := c.Jobs[job]
+	v := j.Off + k
+	for i := job - 1; i >= 0; i-- {
+		h := c.Jobs[i]
+		if (h.H2D || h.Kernel) && h.Queue == j.Queue && v >= h.Off && v < h.Off+h.Len {
+			return i
+		}
+	}
+	return -1
 }
